@@ -303,7 +303,7 @@ def gateCheckS (fs : FS) (c : PutCfg) (volume : Bytes) (cand : Candidate) : Opti
   match cand.gate with
   | .homeFallback => if c.env.fallbackEnv = some (b "1") then none else some .fallbackDisabled
   | .sameVolume =>
-    let tv := volumeOfS fs c.cwd (realpathStrS fs c.cwd (normpath cand.path))
+    let tv := volumeOfS fs c.cwd (realpathStrS fs c.cwd cand.path)
     if tv = volume then none else some .differentVolumes
 theorem gateCheck_eq (fs : FS) (c : PutCfg) (volume : Bytes) (cand : Candidate) :
     gateCheck fs c volume cand = gateCheckS fs c volume cand := by
